@@ -43,9 +43,53 @@ import (
 // description the vector carries (kparts: 8-octet parts that are equal / zero / all-ones / weak or semi-weak DES
 // keys, parity, repeating patterns).  Direct key: the three directions; RSA key transport: the session key of the
 // independent producer, direction ref2pkg.
+// Family "enc" (round 6): HOW THE ENCRYPTER VALUE WAS OBTAINED AND CONFIGURED - every constructor (OAEP, OAEP_SHA256,
+// OAEP_SHA512, PKCS1v15) x DigestMethod field left as constructed / reassigned to every digest x BlockCipher field left as
+// constructed / reassigned to every block cipher; the combination encrypted with is the one the fields name when Encrypt
+// is called.  Directions self and pkg2ref.  Every family builds the package's encrypter from the record enc of its vector.
+// Concurrent decryption over the shared decrypter registry (spec/XmlEncConc.tla) is c10_concurrent_test.go.
+
+// c10Enc says how the package's encrypter of a case is obtained: the constructor called, and what is assigned to the
+// exported fields afterwards ("asis": the field is left as constructed).
+type c10Enc struct {
+	Ctor  string `json:"ctor"`  // OAEP | OAEP_SHA256 | OAEP_SHA512 | PKCS1v15 | none (the BlockCipher value itself)
+	Setdm string `json:"setdm"` // asis | digest assigned to DigestMethod
+	Setbc string `json:"setbc"` // asis | block cipher assigned to BlockCipher
+}
+
+func (e c10Enc) name() string { return fmt.Sprintf("ctor=%s:dm=%s:bc=%s", e.Ctor, e.Setdm, e.Setbc) }
+
+// the harness's own copy of what the constructors are documented to return (pubkey.go doc comments: "By default the
+// block cipher used is AES-256 CBC and the digest method is SHA-256 / SHA-512"; PKCS1v15: no digest)
+var c10Ctors = map[string]struct{ Kt, Dm string }{
+	"OAEP":        {"rsa-oaep-mgf1p", "sha256"},
+	"OAEP_SHA256": {"rsa-oaep11", "sha256"},
+	"OAEP_SHA512": {"rsa-oaep11", "sha512"},
+	"PKCS1v15":    {"rsa-1_5", "none"},
+	"none":        {"direct", "none"},
+}
+
+// fits reports whether the combination of the case is the one the fields of its encrypter value name.
+func (e c10Enc) fits(c c10Case) error {
+	t, ok := c10Ctors[e.Ctor]
+	if !ok {
+		return fmt.Errorf("unknown constructor %q", e.Ctor)
+	}
+	dm, bc := e.Setdm, e.Setbc
+	if dm == "asis" {
+		dm = t.Dm
+	}
+	if bc == "asis" {
+		bc = "aes256-cbc"
+	}
+	if t.Kt != c.Kt || (c.Kt != "direct" && (dm != c.Dm || bc != c.Bc)) || (c.Kt == "direct" && (e.Setdm != "asis" || e.Setbc != "asis")) {
+		return fmt.Errorf("encrypter %s does not stand for %s %s/%s", e.name(), c.Bc, c.Kt, c.Dm)
+	}
+	return nil
+}
 
 type c10Case struct {
-	Fam   string `json:"fam"` // base | lex
+	Fam   string `json:"fam"` // base | lex | opt | keyval | enc
 	Bc    string `json:"bc"`
 	Kt    string `json:"kt"`
 	Dm    string `json:"dm"`
@@ -56,6 +100,7 @@ type c10Case struct {
 	Mgfd  string `json:"mgfd"` // digest of the MGF1 the key is wrapped with
 	Opt   c10Opt `json:"opt"`  // optional children of EncryptionMethod the independent producer writes
 	Kv    string `json:"kv"`   // value class of the symmetric key
+	Enc   c10Enc `json:"enc"`  // how the package's encrypter is obtained and configured
 }
 
 type c10Opt struct {
@@ -148,30 +193,54 @@ func c10PkgDigest(name string) xmlenc.DigestMethod {
 	panic("harness: no digest " + name)
 }
 
-// c10PkgEncrypter returns the package's Encrypter for the case exactly as its API offers it.
-func c10PkgEncrypter(c c10Case) xmlenc.Encrypter {
-	bc := c10PkgBlock(c.Bc)
+// c10StdEnc is how the rounds before the encrypter became part of the vector obtained it (replay files of those rounds).
+func c10StdEnc(c c10Case) c10Enc {
 	switch c.Kt {
-	case "direct":
-		return bc
 	case "rsa-oaep-mgf1p":
-		e := xmlenc.OAEP()
-		e.BlockCipher = bc
-		e.DigestMethod = c10PkgDigest(c.Dm)
-		return e
+		return c10Enc{"OAEP", c.Dm, c.Bc}
 	case "rsa-oaep11":
-		e := xmlenc.OAEP_SHA256()
 		if c.Dm == "sha512" {
-			e = xmlenc.OAEP_SHA512()
+			return c10Enc{"OAEP_SHA512", "asis", c.Bc}
 		}
-		e.BlockCipher = bc
-		return e
+		if c.Dm == "sha256" {
+			return c10Enc{"OAEP_SHA256", "asis", c.Bc}
+		}
+		return c10Enc{"OAEP_SHA256", c.Dm, c.Bc}
 	case "rsa-1_5":
-		e := xmlenc.PKCS1v15()
-		e.BlockCipher = bc
-		return e
+		return c10Enc{"PKCS1v15", "asis", c.Bc}
 	}
-	panic("harness: no key transport " + c.Kt)
+	return c10Enc{"none", "asis", "asis"}
+}
+
+// c10PkgEncrypter returns the package's Encrypter for the case exactly as its API offers it and as the vector says it is
+// obtained: the constructor is called, then the exported fields are assigned.
+func c10PkgEncrypter(c c10Case) xmlenc.Encrypter {
+	en := c.Enc
+	if en.Ctor == "" {
+		en = c10StdEnc(c)
+	}
+	var e xmlenc.RSA
+	switch en.Ctor {
+	case "none":
+		return c10PkgBlock(c.Bc)
+	case "OAEP":
+		e = xmlenc.OAEP()
+	case "OAEP_SHA256":
+		e = xmlenc.OAEP_SHA256()
+	case "OAEP_SHA512":
+		e = xmlenc.OAEP_SHA512()
+	case "PKCS1v15":
+		e = xmlenc.PKCS1v15()
+	default:
+		panic("harness: no constructor " + en.Ctor)
+	}
+	if en.Setdm != "asis" {
+		e.DigestMethod = c10PkgDigest(en.Setdm)
+	}
+	if en.Setbc != "asis" {
+		e.BlockCipher = c10PkgBlock(en.Setbc)
+	}
+	return e
 }
 
 type c10Obs struct {
@@ -210,6 +279,47 @@ type c10Run struct {
 	Long     bool
 	PlainLen int
 	Fault    string // harness fault (family lex): the reference could not read its own element
+	Said     c10Said
+}
+
+// c10Said is what the package's element announces: the identifiers of the data cipher and of the key transport, the
+// digest and mask generation function named under the key's EncryptionMethod, the size of the key the reference unwraps.
+type c10Said struct {
+	Data, Kt, Dm, Mgf string
+	KeyLen            int // -1: not unwrapped by the reference
+}
+
+func c10ReadSaid(root *etree.Element, priv *rsa.PrivateKey) c10Said {
+	s := c10Said{KeyLen: -1}
+	if em := xeChild(root, "EncryptionMethod"); em != nil {
+		s.Data = em.SelectAttrValue("Algorithm", "")
+	}
+	ek := xeChild(xeChild(root, "KeyInfo"), "EncryptedKey")
+	if em := xeChild(ek, "EncryptionMethod"); em != nil {
+		s.Kt = em.SelectAttrValue("Algorithm", "")
+		if d := xeChild(em, "DigestMethod"); d != nil {
+			s.Dm = d.SelectAttrValue("Algorithm", "")
+		}
+		if m := xeChild(em, "MGF"); m != nil {
+			s.Mgf = m.SelectAttrValue("Algorithm", "")
+		}
+		if k, err := refUnwrapKey(priv, ek); err == nil {
+			s.KeyLen = len(k)
+		}
+	}
+	return s
+}
+
+// c10SaidWant is what the element of a case must announce: the W3C identifiers of the combination.
+func c10SaidWant(c c10Case) c10Said {
+	w := c10Said{Data: refBlockByName(c.Bc).URI, Kt: refKtURI(c.Kt), KeyLen: refBlockByName(c.Bc).Key}
+	if d := refDigestByName(c.Dm); d != nil {
+		w.Dm = d.URI
+		if c.Kt == "rsa-oaep11" {
+			w.Mgf = refMgfURI(c.Dm)
+		}
+	}
+	return w
 }
 
 func pkgDecrypt(k any, el *etree.Element) (out []byte, err error, panicked bool, msg string) {
@@ -256,7 +366,38 @@ func c10ExecuteKey(c c10Case, refel *xeEl, rng *rand.Rand, plen int, kparts []xe
 		rng.Read(r.Nonce)
 	}
 
-	// the package encrypts
+	r.pkgSide(c, encKey, decKey)
+
+	// the reference encrypts
+	var err error
+	var refRoot *etree.Element
+	if refel != nil {
+		ctx := newXeCtx(rng)
+		ctx.set("P", r.P)
+		ctx.set("K", r.K)
+		refRoot = ctx.build(*refel, "EncryptedData")
+	} else {
+		kt := refKT{Name: c.Kt, Digest: c.Dm, CertB64: key("sp").CertB64()}
+		if c.Kt == "rsa-oaep11" {
+			kt.Mgf = c.Dm
+		}
+		refRoot, err = refEncrypt(rngReader{rng}, alg, kt, &key("sp").RSA().PublicKey, r.K, r.P)
+		if err != nil {
+			panic("harness: reference cannot encrypt: " + err.Error())
+		}
+	}
+	root, xmlb, perr := reparse(refRoot)
+	r.RefXML = string(xmlb)
+	if perr != nil {
+		panic("harness: reference output does not parse: " + perr.Error())
+	}
+	got, derr, pp, pmsg := pkgDecrypt(decKey, root)
+	r.Obs["ref2pkg"] = c10Classify(pp, pmsg, got, derr, r.P)
+	return r
+}
+
+// pkgSide: the package encrypts r.P with the encrypter of the case; the package and the reference decrypt the element.
+func (r *c10Run) pkgSide(c c10Case, encKey, decKey any) {
 	var el *etree.Element
 	var err error
 	enc := c10PkgEncrypter(c)
@@ -282,6 +423,9 @@ func c10ExecuteKey(c c10Case, refel *xeEl, rng *rand.Rand, plen int, kparts []xe
 		if cv, e := xeCipherValue(root); e == nil {
 			r.CvLen = len(cv)
 		}
+		if priv, ok := decKey.(*rsa.PrivateKey); ok {
+			r.Said = c10ReadSaid(root, priv)
+		}
 		got, derr, pp, pmsg := pkgDecrypt(decKey, root)
 		r.Obs["self"] = c10Classify(pp, pmsg, got, derr, r.P)
 		var ni xmlenc.ErrAlgorithmNotImplemented
@@ -292,31 +436,19 @@ func c10ExecuteKey(c c10Case, refel *xeEl, rng *rand.Rand, plen int, kparts []xe
 		got, derr = refDecrypt(decKey, root2)
 		r.Obs["pkg2ref"] = c10Classify(false, "", got, derr, r.P)
 	}
+}
 
-	// the reference encrypts
-	var refRoot *etree.Element
-	if refel != nil {
-		ctx := newXeCtx(rng)
-		ctx.set("P", r.P)
-		ctx.set("K", r.K)
-		refRoot = ctx.build(*refel, "EncryptedData")
-	} else {
-		kt := refKT{Name: c.Kt, Digest: c.Dm, CertB64: key("sp").CertB64()}
-		if c.Kt == "rsa-oaep11" {
-			kt.Mgf = c.Dm
-		}
-		refRoot, err = refEncrypt(rngReader{rng}, alg, kt, &key("sp").RSA().PublicKey, r.K, r.P)
-		if err != nil {
-			panic("harness: reference cannot encrypt: " + err.Error())
-		}
+// c10ExecuteEnc runs a case of family "enc": the package encrypts with the value obtained and configured as the case
+// says; the package and the independent implementation decrypt what it wrote (no reference producer: directions self, pkg2ref).
+func c10ExecuteEnc(c c10Case, rng *rand.Rand, plen int) *c10Run {
+	r := &c10Run{Obs: map[string]c10Obs{}, PlainLen: plen}
+	r.P = make([]byte, plen)
+	rng.Read(r.P)
+	if c.Nonce == "supplied" {
+		r.Nonce = make([]byte, 12)
+		rng.Read(r.Nonce)
 	}
-	root, xmlb, perr := reparse(refRoot)
-	r.RefXML = string(xmlb)
-	if perr != nil {
-		panic("harness: reference output does not parse: " + perr.Error())
-	}
-	got, derr, pp, pmsg := pkgDecrypt(decKey, root)
-	r.Obs["ref2pkg"] = c10Classify(pp, pmsg, got, derr, r.P)
+	r.pkgSide(c, key("sp").Cert, key("sp").RSA())
 	return r
 }
 
@@ -516,6 +648,9 @@ func c10RunKt(c c10Case, keyLen int, rng *rand.Rand) *c10KtObs {
 	bcName := map[int]string{16: "aes128-cbc", 24: "aes192-cbc", 32: "aes256-cbc"}[keyLen]
 	cc := c
 	cc.Bc = bcName
+	if cc.Enc.Ctor != "" && cc.Enc.Ctor != "none" {
+		cc.Enc.Setbc = bcName
+	}
 	p := make([]byte, 5)
 	rng.Read(p)
 	var el *etree.Element
@@ -602,10 +737,11 @@ func c10LenKey(failing map[int]bool, all []int) []string {
 func TestC10(t *testing.T) {
 	rep := NewReport("C10")
 	defer rep.Finish(t)
-	rep.Rule = "every terminal state of spec/XmlEnc.tla family C10 (block cipher x key transport/digest x plaintext length 0..4 blocks+1 x supplied/generated nonce) is run with random contents and keys in three directions: xmlenc.Decrypt(xmlenc.Encrypt(p)), reference.Decrypt(xmlenc.Encrypt(p)), xmlenc.Decrypt(reference.Encrypt(p)) where the reference is a standard-library-only implementation of the W3C identifiers (validated against the W3C sample ciphertexts in xmlenc/corpus); plus random longer plaintexts and the key-transport layer on its own; family lex (direction reference -> package): for every key transport x {aes128-cbc, aes128-gcm} (thorough: four ciphers, two lengths) the reference element is written in every enumerated lexical form - the three namespaces bound to the package's prefixes / other prefixes / the default namespace, uniformly and mixed; declarations on the element that needs them / on every element / on the element handed to Decrypt / on an enclosing element; attributes in either order; white space and comments between child elements - and with the key information conformant producers embed (certificate, X509IssuerSerial + certificate, none); each text is read back by the reference before the package is asked; family opt (direction reference -> package): for every key transport and digest the package offers (incl. xmlenc11 rsa-oaep with SHA-1) the reference writes or leaves out the optional children of EncryptionMethod in every way that encodes the parameters it wrapped the key with - ds:DigestMethod (absent = SHA-1), xenc11:MGF (absent = MGF1 with SHA-1), xenc:OAEPparams (absent = present and empty), xenc:KeySize - in the package's lexical form and with other prefixes; family keyval: for every block cipher the symmetric key takes every value class of table KeyParts (3DES: K1=K2, K2=K3, K1=K3, K1=K2=K3, all-zero, all-ones, one repeated octet, weak / semi-weak DES keys, a semi-weak pair, odd / even parity; AES: all-zero, all-ones, one repeated octet, 8- and 16-octet periods), built from the part-by-part description in the vector, as a direct key in the three directions and as the session key of the reference wrapped with rsa-oaep-mgf1p; non-trivial = every (case, direction) but the DontCare cases of family opt (non-empty OAEP label, xmlenc11 rsa-oaep with an MGF1 digest other than the DigestMethod's), all MustAccept"
+	rep.Rule = "every terminal state of spec/XmlEnc.tla family C10 (block cipher x key transport/digest x plaintext length 0..4 blocks+1 x supplied/generated nonce) is run with random contents and keys in three directions: xmlenc.Decrypt(xmlenc.Encrypt(p)), reference.Decrypt(xmlenc.Encrypt(p)), xmlenc.Decrypt(reference.Encrypt(p)) where the reference is a standard-library-only implementation of the W3C identifiers (validated against the W3C sample ciphertexts in xmlenc/corpus); plus random longer plaintexts and the key-transport layer on its own; family lex (direction reference -> package): for every key transport x {aes128-cbc, aes128-gcm} (thorough: four ciphers, two lengths) the reference element is written in every enumerated lexical form - the three namespaces bound to the package's prefixes / other prefixes / the default namespace, uniformly and mixed; declarations on the element that needs them / on every element / on the element handed to Decrypt / on an enclosing element; attributes in either order; white space and comments between child elements - and with the key information conformant producers embed (certificate, X509IssuerSerial + certificate, none); each text is read back by the reference before the package is asked; family opt (direction reference -> package): for every key transport and digest the package offers (incl. xmlenc11 rsa-oaep with SHA-1) the reference writes or leaves out the optional children of EncryptionMethod in every way that encodes the parameters it wrapped the key with - ds:DigestMethod (absent = SHA-1), xenc11:MGF (absent = MGF1 with SHA-1), xenc:OAEPparams (absent = present and empty), xenc:KeySize - in the package's lexical form and with other prefixes; family keyval: for every block cipher the symmetric key takes every value class of table KeyParts (3DES: K1=K2, K2=K3, K1=K3, K1=K2=K3, all-zero, all-ones, one repeated octet, weak / semi-weak DES keys, a semi-weak pair, odd / even parity; AES: all-zero, all-ones, one repeated octet, 8- and 16-octet periods), built from the part-by-part description in the vector, as a direct key in the three directions and as the session key of the reference wrapped with rsa-oaep-mgf1p; family enc (directions package -> package and package -> reference): the package's encrypter is a VALUE - obtained from every constructor {OAEP(), OAEP_SHA256(), OAEP_SHA512(), PKCS1v15()}, its DigestMethod field left as constructed or reassigned to every digest, its BlockCipher field left as constructed or reassigned to every block cipher - and must encrypt with the combination its fields name when Encrypt is called (in every family the encrypter is built from the record enc of the vector: constructor, then assignments); non-trivial = every (case, direction) but the DontCare cases of family opt (non-empty OAEP label, xmlenc11 rsa-oaep with an MGF1 digest other than the DigestMethod's) and xmlenc11 rsa-oaep with RIPEMD-160 in family enc (no MGF1 identifier exists), all MustAccept"
 	rep.Assume("a producer's choice of namespace prefixes, place of namespace declarations, attribute order, white space and comments between child elements does not change the element tree (XML namespaces, XML-Encryption schema): 'interoperates' is required in every such form; only the enumerated forms are exercised (54 quick, 192 thorough, of 864)")
 	rep.Assume("every child of EncryptionMethod is optional (XML-Enc 1.1 schema) and has a default: leaving out ds:DigestMethod means SHA-1, leaving out xenc11:MGF means MGF1 with SHA-1, leaving out xenc:OAEPparams or writing it empty means the empty label, xenc:KeySize repeats what the identifier implies - all of these are encodings of the same parameters and 'interoperates' is required for each; a non-empty OAEP label and xmlenc11 rsa-oaep with an MGF1 digest other than the DigestMethod's are outside the quantifier (DontCare, compared with the model)")
 	rep.Assume("'every key of the right size': the W3C identifiers put no condition on a key but its size, so every value class is MustAccept; the classes enumerated are those of table KeyParts, contents of the random parts are drawn per vector")
+	rep.Assume("'every block cipher and key-transport algorithm the xmlenc package offers for encryption': the package offers its RSA key transports as values whose exported fields BlockCipher and DigestMethod the constructors' documentation invites callers to assign; the combination a call of Encrypt stands for is the one the fields name at that moment, however the value was obtained: MustAccept for every constructor and assignment (xmlenc11 rsa-oaep with RIPEMD-160 cannot be announced - no MGF1 identifier - and is DontCare)")
 	rep.Assume("the reference implementation in harness/xmlenc_helpers.go is the independent implementation of the statement: MGF1-SHA-1 for rsa-oaep-mgf1p, xenc11:MGF (default MGF1-SHA-1) for xmlenc11 rsa-oaep, W3C digest identifiers; it is checked against crypto/rsa and the W3C merlin-xmlenc-five samples on every run")
 	lines := loadLines(t, "vectors.ndjson")
 	if len(lines) == 0 {
@@ -624,8 +760,12 @@ func TestC10(t *testing.T) {
 			rep.Break("bad vector: %v", err)
 			return
 		}
-		if (v.Class != "MustAccept" && !(v.Class == "DontCare" && v.Case.Fam == "opt")) || v.Req != "plaintext" {
+		if (v.Class != "MustAccept" && !(v.Class == "DontCare" && (v.Case.Fam == "opt" || v.Case.Fam == "enc"))) || v.Req != "plaintext" {
 			rep.Break("unexpected class %q in a C10 vector of family %s", v.Class, v.Case.Fam)
+			return
+		}
+		if err := v.Case.Enc.fits(v.Case); err != nil {
+			rep.Break("vector of family %s: %v", v.Case.Fam, err)
 			return
 		}
 		ck := fmt.Sprintf("%s/%s/%s/%d", v.Case.Bc, c10KtName(v.Case), v.Case.Nonce, v.Case.Plen)
@@ -636,6 +776,8 @@ func TestC10(t *testing.T) {
 			ck = "opt/" + ck + "/" + v.Case.Opt.name() + "/" + v.Case.Lex.name()
 		case "keyval":
 			ck = "keyval/" + ck + "/" + v.Case.Kv
+		case "enc":
+			ck = "enc/" + ck + "/" + v.Case.Enc.name()
 		}
 		if first, ok := byCase[ck]; ok {
 			first.alt = append(first.alt, v)
@@ -660,7 +802,7 @@ func TestC10(t *testing.T) {
 
 	// family "lex" is run and judged on its own (below): the block-cipher / key-transport layers are judged on
 	// the package's own lexical form first
-	var lexVecs, optVecs, kvVecs []*c10Vec
+	var lexVecs, optVecs, kvVecs, encVecs []*c10Vec
 	{
 		var base []*c10Vec
 		for _, v := range vecs {
@@ -671,6 +813,8 @@ func TestC10(t *testing.T) {
 				optVecs = append(optVecs, v)
 			case "keyval":
 				kvVecs = append(kvVecs, v)
+			case "enc":
+				encVecs = append(encVecs, v)
 			default:
 				base = append(base, v)
 			}
@@ -700,6 +844,16 @@ func TestC10(t *testing.T) {
 		}
 		if a.Kt != b.Kt {
 			return a.Kt < b.Kt
+		}
+		return a.Plen < b.Plen
+	})
+	sort.SliceStable(encVecs, func(i, j int) bool {
+		a, b := encVecs[i].Case, encVecs[j].Case
+		if a.Enc.name() != b.Enc.name() {
+			return a.Enc.name() < b.Enc.name()
+		}
+		if a.Nonce != b.Nonce {
+			return a.Nonce < b.Nonce
 		}
 		return a.Plen < b.Plen
 	})
@@ -1134,6 +1288,113 @@ func TestC10(t *testing.T) {
 			rep.Sample(map[string]any{"case": c, "key": fmt.Sprintf("%x", r.K), "key_parts": v.Kparts, "predicted": v.Pred, "real": r.Obs})
 		}
 	}
+	// ---- family "enc": how the encrypter value was obtained and configured, directions self and pkg2ref
+	encRuns := make([]*c10Run, len(encVecs))
+	parallel(len(encVecs), func(i int) {
+		c := encVecs[i].Case
+		encRuns[i] = c10ExecuteEnc(c, newRand(fmt.Sprintf("c10/enc/%s/%s/%d", c.Enc.name(), c.Nonce, c.Plen)), c.Plen)
+	})
+	encDirs := []string{"self", "pkg2ref"}
+	type encGroup struct{ ctor, setdm, dir string }
+	encFail := map[encGroup]map[string]int{}  // group -> BlockCipher assignment -> first failing run
+	encOpen := map[encGroup]map[string]bool{} // group -> BlockCipher assignments no other layer explains
+	encValues, encNotDecrypted, encMust := map[string]bool{}, 0, 0
+	for i, v := range encVecs {
+		c, r := v.Case, encRuns[i]
+		encValues[c.Enc.name()] = true
+		for _, d := range encDirs {
+			rep.Eval(v.Class, fmt.Sprintf("enc/%s/%s/%d/%s", c.Enc.name(), c.Nonce, c.Plen, d))
+			rep.Trace(1)
+			o := r.Obs[d]
+			ok := agrees(v, d, o)
+			if ok {
+				agree++
+			} else {
+				disagree++
+			}
+			if v.Class == "DontCare" {
+				if !ok {
+					rep.DriftCase(fmt.Sprintf("C10:encrypter:%s:dir=%s", c.Enc.name(), d), fmt.Sprintf("model predicted %s (%s), real code: %s %s", v.pred(d).K, v.pred(d).Why, o.K, o.Detail), c)
+				}
+				continue
+			}
+			encMust++
+			// what the key transport with the same digest, or the block cipher with a direct key, does not explain
+			if ktFail[c10KtName(c)][d] || directFail[cell{c.Bc, d, c.Nonce}][c.Plen] {
+				if o.K != "plaintext" {
+					encNotDecrypted++
+				}
+				continue
+			}
+			g := encGroup{c.Enc.Ctor, c.Enc.Setdm, d}
+			if encOpen[g] == nil {
+				encOpen[g], encFail[g] = map[string]bool{}, map[string]int{}
+			}
+			encOpen[g][c.Enc.Setbc] = true
+			if o.K != "plaintext" {
+				encNotDecrypted++
+				if _, seen := encFail[g][c.Enc.Setbc]; !seen {
+					encFail[g][c.Enc.Setbc] = i
+				}
+			}
+		}
+		// the element must announce the combination the fields name (else the case is no encryption with it): the
+		// statement does not speak of it - drift
+		if v.Class == "MustAccept" && r.PkgXML != "" && r.Obs["self"].K != "panic" {
+			want := c10SaidWant(c)
+			if r.Said.KeyLen == -1 {
+				want.KeyLen = -1 // the reference does not unwrap the key: direction pkg2ref says so
+			}
+			if r.Said != want {
+				rep.DriftCase("C10:encrypter-announces:"+c.Enc.name(), fmt.Sprintf("the element written by the encrypter %s announces %+v, its fields name %+v", c.Enc.name(), r.Said, want), c)
+			}
+		}
+		if i%23 == 0 {
+			rep.Sample(map[string]any{"case": c, "encrypter": c.Enc, "announced": r.Said, "predicted": v.Pred, "real": r.Obs})
+		}
+	}
+	{
+		var groups []encGroup
+		for g := range encFail {
+			if len(encFail[g]) > 0 {
+				groups = append(groups, g)
+			}
+		}
+		sort.Slice(groups, func(i, j int) bool {
+			return fmt.Sprint(groups[i]) < fmt.Sprint(groups[j])
+		})
+		for _, g := range groups {
+			k := fmt.Sprintf("C10:encrypter:ctor=%s:dm=%s:dir=%s", g.ctor, g.setdm, g.dir)
+			var bcs []string
+			for b := range encFail[g] {
+				bcs = append(bcs, b)
+			}
+			sort.Strings(bcs)
+			emit := func(k string, idx int, more string) {
+				c, r := encVecs[idx].Case, encRuns[idx]
+				what := fmt.Sprintf("encrypter obtained from xmlenc.%s(), DigestMethod %s, BlockCipher %s%s: %s with %s, %d-octet plaintext, %s nonce",
+					c.Enc.Ctor, c10FieldWord(c.Enc.Setdm), c10FieldWord(c.Enc.Setbc), more, c.Bc, c10KtName(c), r.PlainLen, c.Nonce)
+				rep.Violation(k, c10Clause(g.dir, what, r.Obs[g.dir]), r.replay("enc", c, g.dir))
+			}
+			if len(bcs) == len(encOpen[g]) && len(bcs) > 1 {
+				emit(k, encFail[g][bcs[0]], " (and with every other BlockCipher assignment)")
+				continue
+			}
+			for _, b := range bcs {
+				emit(k+":bc="+b, encFail[g][b], "")
+			}
+		}
+	}
+	rep.Extra["encrypter_values"] = len(encValues)
+	rep.Extra["encrypter_value_cases"] = len(encVecs)
+	rep.Extra["encrypter_value_evaluations_not_decrypted"] = encNotDecrypted
+	if len(encVecs) == 0 || encMust == 0 {
+		rep.Break("vacuous: no MustAccept case of family enc (the encrypter as a configured value)")
+	}
+
+	// ---- concurrent decryption over the shared decrypter registry (spec/XmlEncConc.tla)
+	c10Concurrent(rep)
+
 	rep.Extra["key_value_classes"] = len(kvClasses)
 	rep.Extra["key_value_cases"] = len(kvVecs)
 	rep.Extra["key_value_evaluations_not_decrypted"] = kvFail
@@ -1146,6 +1407,13 @@ func TestC10(t *testing.T) {
 		rep.Break("vacuous: no MustAccept cases")
 	}
 	rep.Note("C10's statement has no rejecting clause: all cases are MustAccept; rejection of malformed input is C11")
+}
+
+func c10FieldWord(set string) string {
+	if set == "asis" {
+		return "left as constructed"
+	}
+	return "reassigned to " + set
 }
 
 func sortedKeys(m map[string]bool) []string {
@@ -1221,6 +1489,12 @@ func init() {
 			json.Unmarshal(raw, &l)
 			o, _ := c10RunLexical(l.Form, l.Kt, newRand("replay"))
 			return o.K != "plaintext", o.K + " " + o.Detail
+		case "enc":
+			run := c10ExecuteEnc(r.Case, newRand("replay"), r.Plen)
+			o := run.Obs[r.Dir]
+			return o.K != "plaintext", o.K + " " + o.Detail
+		case "concurrent":
+			return c10ConcurrentReplay(t, raw)
 		case "kt":
 			o := c10RunKt(r.Case, r.KeyLen, newRand("replay"))
 			return o.Obs[r.Dir].K != "plaintext", o.Obs[r.Dir].K + " " + o.Obs[r.Dir].Detail
